@@ -85,7 +85,7 @@ pub fn err_name(e: &CircuitError) -> String {
 }
 
 pub fn check_prog<C: Pv>(prog: &Prog) -> Report {
-    let built: Built<C> = e1::interpret::<C>(prog, e1::Excl::RUNNER);
+    let (built, linked): (Built<C>, bool) = e1::interpret_linked::<C>(prog, e1::Excl::RUNNER);
     let src_sat = built.src_sat();
     let Built {
         builder,
@@ -120,6 +120,7 @@ pub fn check_prog<C: Pv>(prog: &Prog) -> Report {
         .classes(mech.classes.clone())
         .classes(features.iter().map(|f| format!("feat:{f}")))
         .class(format!("field:{}", C::NAME))
+        .class(if linked { "decompose-links:recompose/coeff" } else { "decompose-links:default" })
         .classes(excluded.iter().map(|e| format!("excluded_by_known_finding:{e}")))
         .nontrivial(mech.fired)
         .key(hash_of(prog));
